@@ -100,7 +100,7 @@ CORPUS = [
     [("ext", 1, ".b", ".a", False, None), ("ext", 2, ".c", ".b", False, None), ("rule", 0, ".a", None)],
     # X2: two extensions meeting in one compound (incremental extension loses `.y > b.x`)
     [("ext", 2, "b.x", ".y", False, None), ("rule", 0, ".y > a.y", None), ("ext", 1, ".x", "a", False, None)],
-    # X4: the second `MergedExtension::merge(..).unwrap()` (mod.rs:1093) still panics (D17 was fixed at mod.rs:973 only)
+    # X4 (fixed, 5015dbf): the second `MergedExtension::merge(..).unwrap()` (mod.rs:1093) panicked; now an error
     [("rule", 0, ".y", None), ("ext", 1, ".y", ".y", False, "screen"), ("ext", 2, ".y#i", ".y", False, "print")],
     # X3: weave puts `.y` between `[t]:focus` and `b`
     [("ext", 2, "[t]:focus + b", "#i", False, None), ("ext", 1, ".y ~ b[t]", "a", False, None), ("rule", 0, "#i + a.x", None)],
